@@ -44,3 +44,27 @@ func globBalanced(pat, s string) bool {
 	}
 	return false
 }
+
+// renameLocals (WK_RENAME=1): render every named non-parameter local with a suffix, which simulates
+// renaming all local variables of the analysed program at once. A rule that turns violated/undecided
+// under this mode depends on a local's name and would raise a false alarm on a rename.
+var renameLocals = os.Getenv("WK_RENAME") == "1"
+
+// isParamName: name is a parameter (or named result) of fn or of an enclosing function.
+func isParamName(fn *ssaFunction, name string) bool {
+	for f := fn; f != nil; f = f.Parent() {
+		for _, p := range f.Params {
+			if p.Name() == name {
+				return true
+			}
+		}
+		if res := f.Signature.Results(); res != nil {
+			for i := 0; i < res.Len(); i++ {
+				if res.At(i).Name() == name {
+					return true
+				}
+			}
+		}
+	}
+	return false
+}
